@@ -48,6 +48,12 @@ theorem sat_sub_nat (p n : Nat) : saturating_sub (p : Int) (n : Int) = ((p - n :
 theorem sat_sub (p : Nat) (e : Int) (he : e < 0) : saturating_sub (p : Int) (-e) = ((p - (-e).toNat : Nat) : Int) := by
   unfold saturating_sub; split <;> omega
 
+/-- `isize::unsigned_abs` of a negative exponent (the form `exponent.unsigned_abs()` of the shift amounts; the proofs below accept
+    both it and `(-exponent) as usize`) -/
+theorem uabs_neg (e : Int) (he : e < 0) : unsigned_abs e = -e := by
+  show ((e.natAbs : Nat) : Int) = -e
+  omega
+
 theorem nat_sub_cast (d p : Nat) (h : p < d) : ((d : Int) - (p : Int)) = ((d - p : Nat) : Int) := by omega
 
 /-- closes the leaves: both sides are the same constructor applied to equal fields -/
@@ -69,6 +75,7 @@ theorem trunc_is_model (B : Nat) (m : Mode) (c : Coarse) (dub : Int → Nat) (s 
     modelK, is_zero_int, eq_int, ne_int, ge_int, gt_int, le_int, lt_int, add_int, neg_int]
   gcases h1 : s = 0 <;> gcases h2 : e = 0
   all_goals (gcases h3 : 0 ≤ e <;> gcases h4 : e + (dub s : Int) < -1)
+  all_goals (try rw [uabs_neg e (by omega)])
   all_goals (try rw [sat_sub p e (by omega)])
   all_goals gleaf
 
@@ -78,6 +85,7 @@ theorem split_at_point_internal_is_model (B : Nat) (m : Mode) (c : Coarse) (dub 
       let r := splitAtPointInternal B dub ⟨⟨s, e⟩, p⟩
       (r.1, r.2.1, (r.2.2 : Int)) := by
   unfold FBig_split_at_point_internal splitAtPointInternal
+  try rw [uabs_neg e he]
   simp only [Repr_smaller_than_one, smallerThanOne, modelK, lt_int, add_int, neg_int]
   gcases h4 : e + (dub s : Int) < -1
   all_goals gleaf
@@ -91,6 +99,7 @@ theorem split_at_point_is_model (B : Nat) (m : Mode) (c : Coarse) (dub : Int →
     FBigM.zero, modelK, is_zero_int, eq_int, ne_int, ge_int, gt_int, le_int, lt_int, add_int, neg_int]
   gcases h1 : s = 0 <;> gcases h2 : e = 0
   all_goals (gcases h3 : 0 ≤ e <;> gcases h4 : e + (dub s : Int) < -1)
+  all_goals (try rw [uabs_neg e (by omega)])
   all_goals (try rw [sat_sub p e (by omega)])
   all_goals gleaf
 
@@ -105,6 +114,7 @@ theorem fract_is_model (B : Nat) (m : Mode) (c : Coarse) (dub : Int → Nat) (s 
     all_goals gleaf
   · rw [split_at_point_internal_is_model B m c dub s e p (by omega)]
     unfold splitAtPointInternal
+    try rw [uabs_neg e (by omega)]
     simp only [assert_finite, Repr_is_infinite, Repr_smaller_than_one, smallerThanOne, Context_new, FBig_new, Repr_zero, FBig_ZERO,
       FBigM.zero, modelK, is_zero_int, eq_int, ne_int, ge_int, gt_int, le_int, lt_int, add_int, neg_int]
     gcases h1 : s = 0 <;> gcases h2 : e = 0
@@ -126,9 +136,11 @@ theorem ceil_is_model (B : Nat) (m : Mode) (c : Coarse) (dub : Int → Nat) (s e
     gcases h1 : s = 0 <;> gcases h2 : e = 0
     all_goals (gcases h4 : e + (dub s : Int) < -1 <;> gcases h5 : s < 0 <;> gcases h5' : 0 ≤ s <;>
       gcases h6 : e + (dub s : Int) < -2)
+    all_goals (try rw [uabs_neg e (by omega)])
     all_goals (try rw [sat_sub p e (by omega)])
     all_goals (try simp only [splitAtPointInternal, smallerThanOne, h4, decide_true, decide_false, if_true, if_false,
       Bool.false_eq_true])
+    all_goals (try rw [uabs_neg e (by omega)])
     all_goals (try rw [sat_sub p e (by omega)])
     all_goals gleaf
 
@@ -147,9 +159,11 @@ theorem floor_is_model (B : Nat) (m : Mode) (c : Coarse) (dub : Int → Nat) (s 
     gcases h1 : s = 0 <;> gcases h2 : e = 0
     all_goals (gcases h4 : e + (dub s : Int) < -1 <;> gcases h5 : s < 0 <;> gcases h5' : 0 ≤ s <;>
       gcases h6 : e + (dub s : Int) < -2)
+    all_goals (try rw [uabs_neg e (by omega)])
     all_goals (try rw [sat_sub p e (by omega)])
     all_goals (try simp only [splitAtPointInternal, smallerThanOne, h4, decide_true, decide_false, if_true, if_false,
       Bool.false_eq_true])
+    all_goals (try rw [uabs_neg e (by omega)])
     all_goals (try rw [sat_sub p e (by omega)])
     all_goals gleaf
 
@@ -168,9 +182,11 @@ theorem round_is_model (B : Nat) (m : Mode) (c : Coarse) (dub : Int → Nat) (s 
     gcases h1 : s = 0 <;> gcases h2 : e = 0
     all_goals (gcases h4 : e + (dub s : Int) < -1 <;> gcases h5 : s < 0 <;> gcases h5' : 0 ≤ s <;>
       gcases h6 : e + (dub s : Int) < -2)
+    all_goals (try rw [uabs_neg e (by omega)])
     all_goals (try rw [sat_sub p e (by omega)])
     all_goals (try simp only [splitAtPointInternal, smallerThanOne, h4, decide_true, decide_false, if_true, if_false,
       Bool.false_eq_true])
+    all_goals (try rw [uabs_neg e (by omega)])
     all_goals (try rw [sat_sub p e (by omega)])
     all_goals gleaf
 
